@@ -48,6 +48,7 @@ TIERS = {
 }
 EPS = 1e-6
 
+CHUNK = 1000
 GAPS = [1] * 8 + [2, 3, 5]
 INCS = [0.1] * 8 + [0.05, 0.5, 1.0]
 
@@ -202,4 +203,11 @@ def run_shard(col, cfg):
         col.record(case, nontrivial, classes=classes, violations=vs,
                    sample={"method": tr.lines, "traj": case["traj"],
                            "phases": [[p["user"], p["ticks"], p["rep"]] for p in case["phases"][:12]]})
-    hyp_run(_strategy(bool(cfg.get("deep"))), body, max(1, cfg["examples"] // col.nshards), shard_seed(col.seed, col.shard), col)
+    # chunks of <= CHUNK examples, so that a shard stops generating soon after the budget has run out (one chunk = the
+    # whole share of a shard in the quick tier)
+    total = max(1, cfg["examples"] // col.nshards)
+    done = 0
+    while done < total and not col.expired():
+        n = min(CHUNK, total - done)
+        hyp_run(_strategy(bool(cfg.get("deep"))), body, n, shard_seed(col.seed, col.shard) + 100000 * (done // CHUNK), col)
+        done += n
